@@ -59,8 +59,8 @@ def dtype_kind(a):
 
 def int_value(e):
     """the integer an integral-valued element denotes (for specs): floats with integer witness -> int"""
-    if isinstance(e, SNum) and not e.isint and e.dy is not None and e.dy[1] == 0:
-        return SNum(e.dy[0])
+    if isinstance(e, SNum) and not e.isint and e.dy is not None and e.dy[1] <= 0:
+        return SNum(z3.simplify(e.dy[0] * (1 << -e.dy[1])))
     if isinstance(e, float) and e == int(e):
         return int(e)
     return e
@@ -152,9 +152,7 @@ def store_dtype(signed, n_word, n_word_max=64):
 def float_of_code(c, n_frac):
     """the double code * 2^-n_frac (code-world value)"""
     if isinstance(c, SNum):
-        if n_frac >= 0:
-            return SNum.float_of_intterm(c.t, n_frac)
-        return SNum.float_of_intterm(z3.simplify(c.t * (1 << -n_frac)), 0)
+        return SNum.float_of_intterm(c.t, n_frac)
     return float(Fraction(c) * core.pow2(-n_frac))
 
 
@@ -218,3 +216,14 @@ def sym_status(D, prefix='st'):
 def codes_in(D, name, n, signed, n_word):
     lo, hi = range_of(signed, n_word)
     return [D.int('%s%d' % (name, i), lo, hi) for i in range(n)]
+
+
+def assume_no_int64_uint64_mix(D, xs):
+    """Documented out-of-domain region (DESIGN section 6): NumPy re-infers the dtype of a list of Python ints;
+    values in [2^63, 2^64) together with values in [-2^63, 2^63) become float64 (int64+uint64 promotion)."""
+    from specs.core import And, Or, Not
+    if len(xs) < 2:
+        return
+    big = Or(*[And(M(x) >= 2**63, M(x) < 2**64) for x in xs])
+    small = Or(*[And(M(x) >= -2**63, M(x) < 2**63) for x in xs])
+    D.assume(Not(And(big, small)))
